@@ -202,6 +202,10 @@ def jobs(tier, seed):
     for it in [('canon', 'close', 'text'), ('canon', 'cl', 'gzip'), ('lf', 'chunked_ext', 'text'),
                ('canon', 'http10', 'binary'), ('canon', 'chunked1', 'deflate')]:
         js.append(dict(kind='stall', items=[it], ka=True, il=False, tier=tier))
+    js.append(dict(kind='light', items=[('pad32768', 'cl', 'text'), ('canon', 'cl', 'text')],
+                   ka=True, il=False, tier=tier))
+    js.append(dict(kind='light', items=[('pad32767', 'chunked_ext', 'gzip')], ka=True,
+                   il=False, tier=tier))
     js.append(dict(kind='light', items=[('biglf', 'cl', 'text')], ka=True, il=False, tier=tier))
     js.append(dict(kind='light', items=[('biglf', 'chunked_ext', 'text'), ('canon', 'cl', 'text')],
                    ka=True, il=False, tier=tier))
